@@ -496,9 +496,9 @@ fn main() {
         let t = tsrun::run_one(&js, &limits, 5000);
         println!("      samlang \"${{1+1}} ...\" and \"a\\nb: number\" print as {:?} / {:?}", t.lines, t.ending);
         c.check(
-          "template substitution / escapes inside a samlang string reach node verbatim",
+          "a samlang string with ${..} is not interpolated; backslash escapes are interpreted by the template literal",
           t.ending == Ending::Return
-            && t.lines == vec!["2 as unknown as number".to_string(), "a".into(), "b: number".into()],
+            && t.lines == vec!["${1+1} as unknown as number".to_string(), "a".into(), "b: number".into()],
           || short(&t),
         );
       }
